@@ -230,6 +230,8 @@ func doBind(sc *Collection, originalInvokeF *provider, originalInitF *provider, 
 		}
 	}
 
+	verifObserveBind(isReal, funcs, invokeIndex, downVmap, upVmap)
+
 	// Generate wrappers and split the handlers into groups (static, middleware, final)
 	collections := make(map[groupType][]*provider)
 	for _, fm := range funcs {
@@ -345,6 +347,7 @@ func doBind(sc *Collection, originalInvokeF *provider, originalInitF *provider, 
 			initImp := func(inputs []reflect.Value) []reflect.Value {
 				debugln("INSIDE INIT")
 				// if initDone panic, return error, or ignore?
+				verifYield("init-once")
 				initOnce.Do(func() {
 					outMap(baseValues, inputs)
 					debugln("RUN STATIC CHAIN")
@@ -369,6 +372,7 @@ func doBind(sc *Collection, originalInvokeF *provider, originalInitF *provider, 
 		debugln("SET INIT FUNC - DONE")
 	} else {
 		initFunc = func() {
+			verifYield("init-once")
 			initOnce.Do(func() {
 				_ = runStaticChain()
 			})
@@ -392,6 +396,7 @@ func doBind(sc *Collection, originalInvokeF *provider, originalInitF *provider, 
 			invokeImpl := func(inputs []reflect.Value) []reflect.Value {
 				initFunc()
 				values := baseValues.Copy()
+				verifYield("invoke-copied")
 				dumpValueArray(values, "invoke - before input copy", downVmap)
 				outMap(values, inputs)
 				dumpValueArray(values, "invoke - after input copy", downVmap)
